@@ -48,7 +48,8 @@ Velocity(b) == SumSatFrom(b, 1)                            \* fn velocity(): sat
 
 \* the first half of insert(): shift out the expired buckets, re-align start_sec
 Rotate(c, p, t) ==
-  LET n  == (t - c.start) \div p.B                         \* (current_sec - start_sec) / interval
+  LET n  == IF t >= c.start THEN (t - c.start) \div p.B    \* (current_sec - start_sec) / interval
+            ELSE TOP                \* u64 wrap-around (production arithmetic): a huge shift
       k  == Len(c.b)
       sh == Lesser(k, n)                                      \* min(len, nshift)
   IN [start |-> t - (t % p.B),
